@@ -146,6 +146,9 @@ func RandRec(r *rand.Rand, format string, i int, hostile bool, maxLen int) SeqRe
 			}
 		}
 	default:
+		if hostile && format == "genbank" && i > 0 && r.Intn(8) == 0 {
+			rec.Seq = "" // CON entry (never the first record of a file: the sniffed formats start with a sequence)
+		}
 		n := 1 + r.Intn(3)
 		for k := 0; k < n; k++ {
 			rec.DefLines = append(rec.DefLines, RandDef(r, 1))
@@ -230,6 +233,12 @@ func Render(r *rand.Rand, recs []SeqRec, st FileStyle) []byte {
 			fmt.Fprintf(&sb, "                     /organism=\"%s\"%s", rec.SciName, eol)
 			if rec.HasTaxon {
 				fmt.Fprintf(&sb, "                     /db_xref=\"taxon:%d\"%s", rec.Taxid, eol)
+			}
+			if rec.Seq == "" {
+				// an entry of the CON division: the sequence is given by reference, there is no ORIGIN block
+				sb.WriteString("CONTIG      join(" + rec.ID + "P1.1:1..100,gap(20)," + rec.ID + "P2.1:1..200)" + eol)
+				sb.WriteString("//" + eol)
+				continue
 			}
 			sb.WriteString("ORIGIN" + eol)
 			for p := 0; p < len(seq); p += 60 {
